@@ -74,14 +74,15 @@ func RebalanceWeight(clusters []*WeightCluster, initialWeight int) {
 	for _, cl := range clusters {
 		weight := weightFactorMin * float32(cl.Weight*lcmCount) / float32(cl.Length*gcdClusterWeight)
 		if weightFactor > 1 {
-			propWeight := int(weight / weightFactor)
-			if propWeight == 0 && cl.Weight > 0 {
-				propWeight = 1
-			}
-			cl.Weight = propWeight
-		} else {
-			cl.Weight = int(weight)
+			weight = weight / weightFactor
 		}
+		propWeight := int(weight)
+		if propWeight == 0 && cl.Weight > 0 {
+			// a cluster with weight should not be left without traffic
+			// because of the rounding to an integer
+			propWeight = 1
+		}
+		cl.Weight = propWeight
 	}
 }
 
